@@ -83,3 +83,15 @@ func Stop() {}
 // MergeBool evaluates a pure closure on all of its paths and returns the merged result as one formula
 // (avoids forking the caller on every branch inside validation loops).
 func MergeBool(f func() bool) bool { return f() }
+
+// Watch records every later access to the fields of *ptr (a struct with a sync.Mutex field) for AssertLockset.
+func Watch(ptr interface{}) {}
+
+// Op names the API operation whose accesses are being recorded ("" stops recording).
+func Op(name string) {}
+
+// AssertLockset states: no field is accessed by two operations, at least once written, without a common lock.
+func AssertLockset(label string) {}
+
+// Native reports whether the harness runs natively (replay) rather than under the engine.
+func Native() bool { return false }
